@@ -1,0 +1,57 @@
+//go:build verif
+
+// Contracts for the govc verifier (see /verif/DESIGN.md). Comment-only.
+
+package bbc
+
+// BBC fragment header: byte 0 = transmission id; byte 1 = sequence number (5 bits, 7..3), start bit (2), end bit (1), fail bit (0).
+
+// govc:func NewFragment property C17 C12
+//@ assigns nothing
+//@ ensures result.transmissionId == transmissionId
+//@ ensures result.identifier / 8 == sequenceNo % 32
+//@ ensures ((result.identifier / 4) % 2 == 1) == start
+//@ ensures ((result.identifier / 2) % 2 == 1) == end
+//@ ensures (result.identifier % 2 == 1) == fail
+//@ ensures sameSlice(result.Payload, payload)
+//@ ensures result.TransmissionID() == transmissionId && result.SequenceNumber() == sequenceNo % 32
+//@ ensures result.StartBit() == start && result.EndBit() == end && result.FailBit() == fail
+
+// govc:func (Fragment).TransmissionID property C17 C12
+//@ assigns nothing
+//@ ensures result == f.transmissionId
+
+// govc:func (Fragment).SequenceNumber property C17 C12
+//@ assigns nothing
+//@ ensures result == f.identifier / 8
+
+// govc:func (Fragment).StartBit property C17 C12
+//@ assigns nothing
+//@ ensures result == ((f.identifier / 4) % 2 == 1)
+
+// govc:func (Fragment).EndBit property C17 C12
+//@ assigns nothing
+//@ ensures result == ((f.identifier / 2) % 2 == 1)
+
+// govc:func (Fragment).FailBit property C17 C12
+//@ assigns nothing
+//@ ensures result == (f.identifier % 2 == 1)
+
+// govc:func ParseFragment property C17 C12 C04
+//@ assigns nothing
+//@ ensures (err == nil) == (len(data) >= 2)
+//@ ensures err == nil ==> f.transmissionId == data[0] && f.identifier == data[1] && sameSlice(f.Payload, data[2:])
+
+// govc:func (Fragment).ReportFailure property C12
+//@ assigns nothing
+//@ ensures result.TransmissionID() == f.TransmissionID() && result.FailBit() && !result.StartBit() && !result.EndBit()
+//@ ensures len(result.Payload) == 0
+
+// govc:func nextSequenceNumber property C12
+//@ assigns nothing
+//@ ensures result == (seq + 1) % 16
+//@ ensures result < 16
+
+// govc:func nextTransmissionId property C12
+//@ assigns nothing
+//@ ensures result == tid + 1
